@@ -38,6 +38,9 @@ def tenth(x):
 
 def main():
     job = json.load(open(sys.argv[1]))
+    if job.get("warm"):        # this recording runs after a history that exercised every entry point and API of the library
+        from obs import warm_up
+        warm_up()
     rnd = random.Random(job.get("seed", 0))
     tables = job["tables"]
     out_rows = []
